@@ -101,6 +101,27 @@ Section Count.
       + destruct (veqb (den c x) (c_fill c)) eqn:E; [apply veqb_eq in E; contradiction|reflexivity].
       + intros Heq. apply veqb_eq in Heq. rewrite Heq in Hn. discriminate.
   Qed.
+
+  (* programs over ANY signature whose arrays are COO: if the operands are canonical and store no
+     fill value, and every operation keeps that, then nnz of every result counts its non-fill
+     elements *)
+  Theorem nnz_counts_nonfill_proof
+    (O0 O1 O2 ON : Type)
+    (sem0 : O0 -> option (coo V)) (sem1 : O1 -> coo V -> option (coo V))
+    (sem2 : O2 -> coo V -> coo V -> option (coo V)) (semN : ON -> list (coo V) -> option (coo V)) :
+    let good := fun c : coo V => canonical V c /\ prunedb veqb c = true in
+    (forall o r, sem0 o = Some r -> good r) ->
+    (forall o a r, good a -> sem1 o a = Some r -> good r) ->
+    (forall o a b r, good a -> good b -> sem2 o a b = Some r -> good r) ->
+    (forall o l r, Forall good l -> semN o l = Some r -> good r) ->
+    forall env, Forall good env ->
+    forall p r, eval (coo V) O0 O1 O2 ON sem0 sem1 sem2 semN env p = Some r ->
+    nnz r = count_nonfill V veqb r.
+  Proof.
+    intros good k0 k1 k2 kN env Henv p r H.
+    destruct (eval_invariant _ _ _ _ _ _ _ _ _ good k0 k1 k2 kN env Henv p r H) as [Hc Hp].
+    apply nnz_count_proof; assumption.
+  Qed.
 End Count.
 
 (* ------------------------------------------------------------------ the constructor-level instance *)
@@ -275,7 +296,7 @@ Section CooOpsP.
       apply ctor_canonical_proof; auto; try discriminate.
       + rewrite !app_length. lia.
       + apply Forall_app. split; [assumption|rewrite Es; assumption].
-    - unfold csem2. apply concat0_wf. repeat constructor; assumption.
+    - unfold csem2. apply concat0_wf. constructor; [assumption|]. constructor; [assumption|constructor].
   Qed.
 
   Lemma keep2_good o a b r : good a -> good b -> csem2 V veqb add o a b = Some r -> good r.
@@ -288,7 +309,7 @@ Section CooOpsP.
       apply ctor_pruned_proof; auto; try discriminate.
       + rewrite !app_length. lia.
       + apply Forall_app. split; [assumption|rewrite Es; assumption].
-    - unfold csem2 in H. eapply concat0_good; [|exact H]. repeat constructor; assumption.
+    - unfold csem2 in H. eapply concat0_good; [|exact H]. constructor; [assumption|]. constructor; [assumption|constructor].
   Qed.
 
   Lemma keepN_wf o l r : Forall canon l -> csemN V veqb add o l = Some r -> canon r.
@@ -314,7 +335,7 @@ Section CooOpsP.
     assert (G : good r).
     { unfold ceval in H.
       exact (eval_invariant _ _ _ _ _ _ _ _ _ good keep0_good keep1_good keep2_good keepN_good env Henv p r H). }
-    destruct G as [Hc Hp]. repeat split; auto. apply nnz_count_proof; assumption.
+    destruct G as [Hc Hp]. split; [exact Hc|]. split; [exact Hp|]. apply nnz_count_proof; assumption.
   Qed.
 End CooOpsP.
 
@@ -322,8 +343,8 @@ End CooOpsP.
 
 Definition zcop_prog : cprog Z :=
   PUn (UReshape Z [3; 2])
-      (PBin (BConcat0 Z)
-            (PBin (BAdd Z) (PInput 0) (PInput 1))
+      (PBin BConcat0
+            (PBin BAdd (PInput 0) (PInput 1))
             (PUn (UFilter Z (fun k v => v <? 5)) (PInput 0))).
 
 Definition zenv : list (coo Z) :=
